@@ -73,6 +73,6 @@ _add("C12", "Pfdl.Denter.run_ok", "Pfdl.Denter.run_spec", "Pfdl.Props.C12.blocks
      "Pfdl.Props.C12.blank_lines_irrelevant", "Pfdl.Props.C12.leading_lines_irrelevant", "Pfdl.Props.C12.final_newline_irrelevant",
      "Pfdl.Props.C12.nesting_from_depths", "Pfdl.Props.C12.indentation_width_irrelevant", "Pfdl.Props.C12.trailing_blank_irrelevant",
      "Pfdl.Props.C12.comment_irrelevant",
-     "Pfdl.Syntax.pStmt_pr", "Pfdl.Syntax.parse_print", "Pfdl.Props.C12.model_is_image_of_text",
+     "Pfdl.Json.pVal_pr", "Pfdl.Json.parseObj_pr", "Pfdl.Syntax.pStmt_pr", "Pfdl.Syntax.parse_print", "Pfdl.Props.C12.model_is_image_of_text",
      "Pfdl.Props.C12.different_models_different_text", "Pfdl.Props.C12.literal_placement_irrelevant",
      "Pfdl.Props.C12.grammar_expressions_ok", "Pfdl.Props.C12.statement_line_is_first_token", "Pfdl.Props.C12.exModel_ok")
